@@ -20,7 +20,7 @@ from tvf.records import coherent_rows
 FACTORS = dict(
     target=["gauss2", "bimodal", "expface", "vonmises", "expface_refl", "support"],
     kernel=["tpcn", "rwm"], resample=["mult", "syst"], clustering=[False, True],
-    mode=["vec", "scalar", "blobs", "blobs2"], metric=["ess", "vol"], N=[32, 64], ntot=[2, 5],
+    mode=["vec", "scalar", "blobs", "blobs2", "blobs3"], metric=["ess", "vol"], N=[32, 64], ntot=[2, 5],
 )
 TRIMS = [(0.99, 1000), (0.9, 10), (0.999999, 1000), (0.5, 2), (0.99, 1), (0.5, 100), (0.999, 1000), (0.99, 2), (0.7, 37)]
 
@@ -86,7 +86,7 @@ def case(cfg, trims):
     for j in range(len(xflat)):
         ref_lw[xflat[j].tobytes()] = float(lwn[j])
     pool_n = len(xflat)
-    have_blobs = c["mode"] in ("blobs", "blobs2")
+    have_blobs = c["mode"] in ("blobs", "blobs2", "blobs3")
     for (rs, rb, tr, rl) in itertools.product([False, True], repeat=4):
         for (et, bt) in (trims if tr else trims[:1]):
             where = f"posterior(resample={rs}, return_blobs={rb}, trim_importance_weights={tr}, return_logw={rl}, ess_trim={et}, bins_trim={bt})"
@@ -153,6 +153,8 @@ def run():
             rows += cover.covering(FACTORS, 3, ck.rng("lattice", extra), valid=lambda r: True)
     if ck.quick:
         rows = rows[:8] if len(rows) > 8 else rows
+    rows = list(rows) + [dict(target="gauss2", kernel="tpcn", resample="syst", clustering=False, mode="blobs3", metric="ess", N=32, ntot=3),
+                         dict(target="bimodal", kernel="rwm", resample="mult", clustering=True, mode="blobs2", metric="vol", N=32, ntot=3)]
     trims = TRIMS[:5] if ck.quick else TRIMS
     ck.tables["pairwise_coverage"] = cover.coverage(rows, FACTORS, 2)
     ck.tables["threeway_coverage"] = cover.coverage(rows, FACTORS, 3)
